@@ -367,6 +367,7 @@ class Expander:
             unroll_literal_loops(m.tree)
             loops_to_comprehensions(m.tree)
             flatten_spellings(m.tree)
+            more_spellings(m.tree)
             for node in ast.walk(m.tree):
                 for child in ast.iter_child_nodes(node):
                     child._parent = node
@@ -923,6 +924,141 @@ def flatten_spellings(tree: ast.AST):
                         n_ = st.value.func.value.id
                         blk[k] = ast.copy_location(ast.Assign(targets=[ast.Name(id=n_, ctx=ast.Store())], value=ast.Call(func=ast.Name(id="sorted", ctx=ast.Load()), args=[ast.Name(id=n_, ctx=ast.Load())], keywords=[])), st)
                         ast.fix_missing_locations(blk[k])
+
+
+CONSUMERS = {"sum", "sorted", "list", "tuple", "set", "frozenset", "min", "max", "any", "all", "len", "dict", "enumerate", "iter", "zip"}
+
+
+def _pure_path(e) -> bool:
+    while isinstance(e, ast.Attribute):
+        e = e.value
+    return isinstance(e, ast.Name)
+
+
+def more_spellings(tree: ast.AST):
+    """Further spellings of one program:
+    * `f(x for x in IT)` / `f([x for x in IT])` for an iterating builtin f is `f(IT)`;
+    * `zip(D.keys(), D.values())` is `D.items()` (D a plain name / attribute path: evaluated twice without effect);
+    * `sorted(list(X))`, `list(sorted(X))` are `sorted(X)`;
+    * `acc = 0` followed by `for T in IT: [filters] acc += E` is `acc = sum(E for T in IT if ...)` (same order of additions);
+    * `f = obj.method` (bound once, `obj` a plain name / attribute path not rebound afterwards, `f` only ever called) and
+      `f(args)` is `obj.method(args)`."""
+    def rewrite_expr(c):
+        if not isinstance(c, ast.Call) or c.keywords and not (isinstance(c.func, ast.Name) and c.func.id in ("sorted", "min", "max", "sum")):
+            return None
+        if isinstance(c.func, ast.Name) and c.func.id in CONSUMERS and len(c.args) >= 1 and isinstance(c.args[0], (ast.GeneratorExp, ast.ListComp)):
+            g = c.args[0]
+            if len(g.generators) == 1 and not g.generators[0].ifs and not g.generators[0].is_async and isinstance(g.elt, ast.Name) and isinstance(g.generators[0].target, ast.Name) \
+                    and g.elt.id == g.generators[0].target.id and not (c.func.id in ("list", "tuple", "set", "frozenset", "dict") and isinstance(g, ast.ListComp) and False):
+                new = _clone(c)
+                new.args[0] = g.generators[0].iter
+                return new
+        if isinstance(c.func, ast.Name) and c.func.id == "zip" and len(c.args) == 2 and not c.keywords:
+            a, b = c.args
+            if all(isinstance(x, ast.Call) and isinstance(x.func, ast.Attribute) and not x.args and not x.keywords for x in (a, b)) and a.func.attr == "keys" and b.func.attr == "values" \
+                    and ast.dump(a.func.value) == ast.dump(b.func.value) and _pure_path(a.func.value):
+                return ast.copy_location(ast.Call(func=ast.Attribute(value=a.func.value, attr="items", ctx=ast.Load()), args=[], keywords=[]), c)
+        if isinstance(c.func, ast.Name) and c.func.id == "sorted" and len(c.args) == 1 and isinstance(c.args[0], ast.Call) and isinstance(c.args[0].func, ast.Name) and c.args[0].func.id in ("list", "tuple") \
+                and len(c.args[0].args) == 1 and not c.args[0].keywords:
+            new = _clone(c)
+            new.args[0] = c.args[0].args[0]
+            return new
+        if isinstance(c.func, ast.Name) and c.func.id == "list" and len(c.args) == 1 and not c.keywords and isinstance(c.args[0], ast.Call) and isinstance(c.args[0].func, ast.Name) and c.args[0].func.id == "sorted":
+            return c.args[0]
+        return None
+    changed = True
+    rounds = 0
+    while changed and rounds < 4:
+        changed = False
+        rounds += 1
+        for node in ast.walk(tree):
+            for f, v in ast.iter_fields(node):
+                items = v if isinstance(v, list) else [v]
+                for k, c in enumerate(items):
+                    new = rewrite_expr(c)
+                    if new is not None:
+                        ast.copy_location(new, c)
+                        if isinstance(v, list):
+                            v[k] = new
+                        else:
+                            setattr(node, f, new)
+                        changed = True
+    for fn_ in [n for n in ast.walk(tree) if isinstance(n, ast.FunctionDef)]:
+        # numeric accumulation loops
+        for owner in ast.walk(fn_):
+            for field in ("body", "orelse", "finalbody"):
+                blk = getattr(owner, field, None)
+                if not (isinstance(blk, list) and blk and isinstance(blk[0], ast.stmt)):
+                    continue
+                i = 0
+                while i + 1 < len(blk):
+                    init, loop = blk[i], blk[i + 1]
+                    i += 1
+                    if not (isinstance(init, ast.Assign) and len(init.targets) == 1 and isinstance(init.targets[0], ast.Name) and isinstance(init.value, ast.Constant) and type(init.value.value) in (int, float)
+                            and init.value.value == 0 and isinstance(loop, ast.For) and not loop.orelse):
+                        continue
+                    acc = init.targets[0].id
+                    conds, body = [], loop.body
+                    ok = True
+                    while True:
+                        if len(body) >= 1 and isinstance(body[0], ast.If) and not body[0].orelse and len(body[0].body) == 1 and isinstance(body[0].body[0], ast.Continue) and len(body) > 1:
+                            conds.append(ast.UnaryOp(op=ast.Not(), operand=body[0].test))
+                            body = body[1:]
+                        elif len(body) == 1 and isinstance(body[0], ast.If) and not body[0].orelse:
+                            conds.append(body[0].test)
+                            body = body[0].body
+                        else:
+                            break
+                    if not (len(body) == 1 and isinstance(body[0], ast.AugAssign) and isinstance(body[0].op, ast.Add) and isinstance(body[0].target, ast.Name) and body[0].target.id == acc):
+                        continue
+                    e = body[0].value
+                    if any(isinstance(x, ast.Name) and x.id == acc for z in conds + [e, loop.iter] for x in ast.walk(z)):
+                        continue
+                    bound = {x.id for x in ast.walk(loop.target) if isinstance(x, ast.Name)}
+                    if _free_loads(blk[i + 1:], bound):
+                        continue
+                    tgt = _clone(loop.target)
+                    for x in ast.walk(tgt):
+                        if isinstance(x, ast.Name):
+                            x.ctx = ast.Store()
+                    if not conds and isinstance(e, ast.Name) and isinstance(loop.target, ast.Name) and e.id == loop.target.id:
+                        arg = loop.iter
+                    else:
+                        arg = ast.GeneratorExp(elt=e, generators=[ast.comprehension(target=tgt, iter=loop.iter, ifs=conds, is_async=0)])
+                    new = ast.copy_location(ast.Assign(targets=[ast.Name(id=acc, ctx=ast.Store())], value=ast.Call(func=ast.Name(id="sum", ctx=ast.Load()), args=[arg], keywords=[])), init)
+                    blk[i - 1:i + 1] = [new]
+                    ast.fix_missing_locations(new)
+                    i -= 1
+        # bound-method aliases
+        stores: Dict[str, List[ast.AST]] = {}
+        for x in ast.walk(fn_):
+            if isinstance(x, ast.Name) and isinstance(x.ctx, (ast.Store, ast.Del)):
+                stores.setdefault(x.id, []).append(x)
+            elif isinstance(x, ast.arg):
+                stores.setdefault(x.arg, []).append(x)
+        for k, st in enumerate(list(fn_.body)):
+            if not (isinstance(st, ast.Assign) and len(st.targets) == 1 and isinstance(st.targets[0], ast.Name) and isinstance(st.value, ast.Attribute) and _pure_path(st.value)):
+                continue
+            al = st.targets[0].id
+            if len(stores.get(al, [])) != 1:
+                continue
+            root = st.value
+            while isinstance(root, ast.Attribute):
+                root = root.value
+            # the root object is not rebound after the alias is taken (parameters / self: bound once at entry)
+            if any(getattr(x, "lineno", 0) > st.lineno for x in stores.get(root.id, []) if isinstance(x, ast.Name)):
+                continue
+            uses = [x for x in ast.walk(fn_) if isinstance(x, ast.Name) and x.id == al and isinstance(x.ctx, ast.Load)]
+            callee_ids = {id(c.func) for c in ast.walk(fn_) if isinstance(c, ast.Call)}
+            if not uses or not all(id(u) in callee_ids for u in uses) or any(u.lineno <= st.lineno for u in uses):
+                continue
+            if any(isinstance(x, (ast.FunctionDef, ast.Lambda)) and x is not fn_ and any(isinstance(y, ast.Name) and y.id == al for y in ast.walk(x)) for x in ast.walk(fn_)):
+                continue
+            for c in ast.walk(fn_):
+                if isinstance(c, ast.Call) and isinstance(c.func, ast.Name) and c.func.id == al:
+                    c.func = ast.copy_location(_clone(st.value), c.func)
+                    ast.fix_missing_locations(c)
+            fn_.body[fn_.body.index(st)] = ast.copy_location(ast.Pass(), st)
 
 
 def unroll_literal_loops(tree: ast.AST):
